@@ -25,3 +25,23 @@ Theorem C20_every_history_total :
 Proof. exact run_ops_total. Qed.
 Print Assumptions C20_every_history_total.
 
+
+(* ---- adequacy of the abstract specification S (Proofs/SpecAdequacyProofs.v): consequences of a_step alone, no store, model or refinement lemma ---- *)
+From Coq Require Import Permutation Sorted.
+From Clover Require Import HistoryProofs CompositeSpec CompositeProofs IndexIndepProofs AbstractSpecProofs SpecAdequacyProofs.
+Theorem C20_spec_total_unsorted : forall o a, wf_db (a_db a) -> unsorted_op o -> exists t a', a_step o a t a'.
+Proof. exact spec_total_unsorted. Qed.
+Print Assumptions C20_spec_total_unsorted.
+
+Theorem C20_spec_total : forall o a, wf_db (a_db a) -> total_dom (a_db a) o -> exists t a', a_step o a t a'.
+Proof. exact spec_total. Qed.
+Print Assumptions C20_spec_total.
+
+Theorem C20_spec_answer_shape : forall o a t a', a_step o a t a' -> (exists p, t = T_ok p) \/ (exists e, t = T_err e).
+Proof. exact spec_answer_shape. Qed.
+Print Assumptions C20_spec_answer_shape.
+
+Theorem C20_spec_closed : forall o a t a', a_closed a = true -> handle_op o = false ->
+  a_step o a t a' -> t = T_err EOther /\ a' = a.
+Proof. exact spec_closed. Qed.
+Print Assumptions C20_spec_closed.
